@@ -1218,3 +1218,37 @@ package stackage
 //@ func marshalDefault
 //@ note decoding is decided under C04/C16; callers outside those learn nothing from this call
 //@ noframe
+
+// ---------------------------------------------------------------------
+// C15: Transfer copies everything or reports failure, and never touches the source
+
+//@ func (*stack).transfer
+//@ tags C15
+//@ safety C08
+//@ requires wf(r) && wf(dest) && dest != r && arr(hdr(dest)) != arr(hdr(r)) && cfgOf(dest) != cfgOf(r)
+//@ requires F_nodeConfig_ppf[cfgOf(dest)] == nil
+//@ let n := ulen(r)
+//@ let dl := len(hdr(dest))
+//@ let cp := F_nodeConfig_cap[cfgOf(dest)]
+//@ ensures[C15:transfer.ok] ok ==> len(hdr(dest)) == dl + n && (forall k :: 0 <= k && k < n ==> slot(dest, dl + k) == old(slot(r, k + 1)))
+//@ ensures[C15:transfer.kept] forall k :: 0 <= k && k < dl ==> slot(dest, k) == old(slot(dest, k))
+//@ ensures[C15:transfer.full] cp != 0 && n > cp - dl ==> !ok && hdr(dest) == old(hdr(dest)) && Mem_Val[arr(hdr(dest))] == old(Mem_Val[arr(hdr(dest))])
+//@ ensures[C15:transfer.src] hdr(r) == old(hdr(r)) && Mem_Val[arr(hdr(r))] == old(Mem_Val[arr(hdr(r))]) && cfgOf(r) == old(cfgOf(r))
+//@ ensures[C15:transfer.wf] wf(dest) && wf(r) && cfgOf(dest) == old(cfgOf(dest))
+//@ modifies Cell_stack[dest], Mem_Val[old(arr(hdr(dest)))], Mem_Val[fresh], F_nodeConfig_ldr[cfgOf(dest)], F_nodeConfig_err[cfgOf(dest)], G_held, G_calls_len, G_calls_fn, G_calls_arg
+
+//@ func (Stack).Transfer
+//@ tags C15
+//@ safety C08,C17
+//@ requires r == nil || wf(r)
+//@ let d := stackOf(dest)
+//@ requires r != nil && d != nil ==> d != r && arr(hdr(d)) != arr(hdr(r)) && cfgOf(d) != cfgOf(r) && F_nodeConfig_ppf[cfgOf(d)] == nil
+//@ let n := ulen(r)
+//@ let dl := len(hdr(d))
+//@ let cp := F_nodeConfig_cap[cfgOf(d)]
+//@ let go := r != nil && isStackLike(dest) && d != nil && !bit(F_nodeConfig_opt[cfgOf(d)], 0x0080)
+//@ ensures[C15:Transfer.ok] ok ==> go && len(hdr(d)) == dl + n && (forall k :: 0 <= k && k < n ==> slot(d, dl + k) == old(slot(r, k + 1))) && (forall k :: 0 <= k && k < dl ==> slot(d, k) == old(slot(d, k)))
+//@ ensures[C15:Transfer.full] go && cp != 0 && n > cp - dl ==> !ok && hdr(d) == old(hdr(d)) && Mem_Val[arr(hdr(d))] == old(Mem_Val[arr(hdr(d))])
+//@ ensures[C15:Transfer.refused] !go ==> !ok && (d != nil ==> hdr(d) == old(hdr(d)) && Mem_Val[arr(hdr(d))] == old(Mem_Val[arr(hdr(d))]))
+//@ ensures[C15:Transfer.src] r != nil ==> hdr(r) == old(hdr(r)) && Mem_Val[arr(hdr(r))] == old(Mem_Val[arr(hdr(r))]) && cfgOf(r) == old(cfgOf(r))
+//@ modifies Cell_stack[d], Mem_Val[old(arr(hdr(d)))], Mem_Val[fresh], F_nodeConfig_ldr[cfgOf(d)], F_nodeConfig_err[cfgOf(d)], G_held, G_calls_len, G_calls_fn, G_calls_arg
